@@ -3,7 +3,7 @@ import random
 import numpy as np
 from harness import core, gen, diskimg, oracle
 from harness.sx import opt
-from harness.props import c01
+from harness.props import c01, c02
 from harness.props import taste_common as tc
 
 PID = 'C05'
@@ -87,6 +87,10 @@ def run_case(seed):
     path = core.scratch_dir(f"c05_{seed}")
     diskimg.write_image(img, path)
     img_sx = diskimg.image_sx(img)
+    # the abstract plotfile of the theorems (C05_tool quantifies over these)
+    pf_sx = [c02.gheader_sx(pf),
+             [[c02.lvboxes_sx(pf, lv), gen.level_to_sx(pf, lv), c02.cellh_sx(pf, lv)[3], c02.cellh_sx(pf, lv)[4]]
+              for lv in range(pf.nlevels)]]
     count(f"ndims={pf.ndims}")
     count(f"levels={pf.nlevels}")
     for lk in pf.meta['layouts']:
@@ -105,6 +109,26 @@ def run_case(seed):
         desc = dict(seed=seed, variables=variables, limit_level=limit_arg, meta=pf.meta, fields=keys)
         st, m = model.call('colander', [[v.encode() for v in variables], opt(limit_arg), img_sx])
         mimg = oracle.image_from_sx(m) if st == 'ok' else None
+        # specification side: pf_disk pf must be the bytes on disk, and pf_disk (colander_spec ...) the model's
+        # (hence the implementation's) output - the instance of theorem C05_tool for this case
+        st2, sp = model.call('colander_spec', pf_sx + [[v.encode() for v in variables], opt(limit_arg)])
+        if st2 != 'ok':
+            out['disagreements'].append(dict(desc, kind='spec', what='the specification entry refuses the abstract plotfile',
+                                             correspondence='Plotfile.Abstract.pf_disk'))
+        else:
+            if k == 0:
+                d0 = oracle.same_image(img, oracle.image_from_sx(sp[0]))
+                if d0:
+                    out['disagreements'].append(dict(desc, kind='encode', what='Abstract.pf_disk of the abstract plotfile differs from the directory on disk: ' + d0,
+                                                     correspondence='Plotfile.Abstract.pf_disk vs the generator writer'))
+            spec_img = oracle.image_from_sx(sp[1][1]) if sp[1][0] == 0 else None     # (1) when the pure operation is undefined
+            count(f"pure operation defined={spec_img is not None}")
+            if spec_img is not None:
+                dspec = 'the tool model refuses' if mimg is None else oracle.same_image(mimg, spec_img)
+                if dspec:
+                    out['disagreements'].append(dict(desc, kind='spec-vs-model',
+                                                     what='theorem C05_tool instance: colander(pf_disk pf) differs from pf_disk(colander_spec pf): ' + dspec,
+                                                     correspondence='Writers.ColanderToolProofs.colander_refines'))
         kept, names = expected_contents(pf, keys, variables, limit)
         out['keys'].append(core.khash(seed, k))
         bad = None
@@ -153,11 +177,16 @@ def run(tier, seed):
     rep.obligation('correspondence: Writers.Colander.colander = output directory of Colander.strain (binary files byte for byte, '
                    'level headers token for token, global header with floats by value)',
                    not any(v[0].get('kind') in ('model-vs-impl', 'model-taste') for v in rep.violations))
+    rep.obligation('correspondence: Abstract.pf_disk of the abstract plotfile = the directory on disk the implementation reads',
+                   not any(v[0].get('kind') in ('encode', 'spec') for v in rep.violations))
+    rep.obligation('theorem instance (C05_tool) on every case: colander (pf_disk pf) = pf_disk (colander_spec pf), evaluated by the extracted code',
+                   not any(v[0].get('kind') == 'spec-vs-model' for v in rep.violations))
     return rep.finish(
         level_rule=("cases = generated plotfile (2D/3D, 1-4 levels, all layout kinds, int/random/special payloads) x 4 (variable list, limit) "
                     "pairs; variable lists: all / subsets / permutations / repeats / unknown names mixed in / only unknown; output parsed by "
-                    "the independent reader, compared with the input contents, validated with box coordinates; every case non-trivial; "
-                    "distinct = distinct (seed, index)"),
+                    "the independent reader, compared with the input contents, validated with box coordinates; the abstract plotfile of the "
+                    "theorems is handed to the extracted specification (pf_disk, colander_spec) and its images compared with the directory on "
+                    "disk, the tool model's output and the implementation's output; every case non-trivial; distinct = distinct (seed, index)"),
         trusted_base=core.COMMON_TRUSTED,
         assumptions=["float(repr(x)) == x: float tokens the tool re-prints are compared by value"],
         checker_cmd=pg['checker_cmd'])
